@@ -516,15 +516,15 @@ func geomCase(k *run.K) {
 func runAll(c *run.Ctx) {
 	sizes := []int{1, 2, 3, 4, 5, 6, 7, 8, 10, 13, 20, 50, 100, 200}
 	for _, n := range sizes {
-		reps := c.N(120, 2500)
+		reps := c.N(400, 4000)
 		if n <= 5 {
-			reps = c.N(60, 800)
+			reps = c.N(200, 1500)
 		}
 		for i := 0; i < reps; i++ {
 			c.Case(fmt.Sprintf("points:%d", n), i, func(k *run.K) { pointCase(k, n) })
 		}
 	}
-	for i := 0; i < c.N(4000, 100000); i++ {
+	for i := 0; i < c.N(12000, 150000); i++ {
 		c.Case("geom", i, geomCase)
 	}
 }
